@@ -45,9 +45,7 @@ def sync_sim():
                 p = os.path.join(root, f)
                 s = open(p).read().replace("/repo/", WT + "/")
                 open(p, "w").write(s)
-    cfg = os.path.join(SIMCOPY, ".cargo", "config.toml")
-    s = open(cfg).read().replace("/verif/target", TGT)
-    open(cfg, "w").write(s)
+    # The target dir is forced through the environment (see run_one).
 
 
 def run_one(m, seed):
@@ -65,7 +63,7 @@ def run_one(m, seed):
     sync_sim()
     engine = m.get("engine", "dsim")
     t0 = time.time()
-    r = sh("cargo build --release --offline -p %s" % engine, cwd=SIMCOPY, env=dict(os.environ, CARGO_NET_OFFLINE="true"))
+    r = sh("cargo build --release --offline -p %s" % engine, cwd=SIMCOPY, env=dict(os.environ, CARGO_NET_OFFLINE="true", CARGO_TARGET_DIR=TGT))
     if r.returncode != 0:
         return {"name": m["name"], "error": "build failed", "log": r.stdout[-1500:]}
     build_s = time.time() - t0
